@@ -108,6 +108,29 @@ impl Scenario for HeightLimit {
                 keep.things.push(Box::new(v));
                 return;
             }
+            // an illegal shrink (below the greatest height in use) must be refused, or at least must not
+            // leave the taller graph computing
+            if want >= 2 && choose(4) == 0 {
+                let m = want - 1;
+                op_log(format!("set_max_height_allowed({m}) although height {want} is in use"));
+                cover("shrink-below-height-in-use");
+                let r = catch(|| st.set_max_height_allowed(m));
+                if r.is_ok() {
+                    v.set(fresh());
+                    let r2 = catch(|| st.stabilise());
+                    match r2 {
+                        Ok(()) => violation("C19/too-tall-graph-accepted/after-shrink-below-height-in-use", format!("set_max_height_allowed({m}) was accepted with height {want} in use and the graph still stabilises")),
+                        Err(msg) => {
+                            if !msg.to_lowercase().contains("height") {
+                                violation("C19/height-panic-without-diagnostic/after-illegal-shrink", msg);
+                            }
+                        }
+                    }
+                }
+                keep.things.push(Box::new(o));
+                keep.things.push(Box::new(v));
+                return;
+            }
             // reconfigure at a quiescent point: M >= greatest height in use
             let m = want.max(1) + choose(3); // want, want+1, want+2 (may shrink or grow relative to n)
             op_log(format!("set_max_height_allowed({m}) with greatest height in use {want}"));
@@ -335,6 +358,16 @@ impl Scenario for Misuse {
                 let v = st.var(fresh());
                 let ws: WeakState = st.weak();
                 let nested: Rc<RefCell<Option<Result<(), String>>>> = Rc::new(RefCell::new(None));
+                // a second, observed computation that has pending work when the nested stabilise is attempted
+                let w2 = st.var(fresh());
+                let side_calls = Rc::new(Cell::new(0u32));
+                let sc = side_calls.clone();
+                let side = w2.map(move |x| {
+                    sc.set(sc.get() + 1);
+                    app(6, &[x.clone()])
+                });
+                let o_side = side.observe();
+                let ran_in_nested = Rc::new(Cell::new(0u32));
                 let o: Observer<SV>;
                 if inside == 0 {
                     let n2 = nested.clone();
@@ -347,9 +380,14 @@ impl Scenario for Misuse {
                 } else {
                     o = v.observe();
                     let n2 = nested.clone();
+                    let (w2c, sc2, rin) = (w2.clone(), side_calls.clone(), ran_in_nested.clone());
                     o.subscribe(move |_| {
                         let s = ws.upgrade().unwrap();
+                        // make work pending, then try to stabilise from inside the handler
+                        w2c.set(fresh());
+                        let before = sc2.get();
                         *n2.borrow_mut() = Some(catch(|| s.stabilise()));
+                        rin.set(sc2.get() - before);
                     });
                 }
                 let r = catch(|| st.stabilise());
@@ -359,6 +397,10 @@ impl Scenario for Misuse {
                     Some(Ok(())) => violation("C19/nested-stabilise-accepted", "stabilise called from inside stabilise returned normally".into()),
                     None => violation("C19/nested-stabilise-not-reached", "the closure did not run".into()),
                 }
+                if ran_in_nested.get() > 0 {
+                    violation("C19/nested-stabilise-computed-values", format!("stabilise called from inside an update handler ran {} node functions before it failed", ran_in_nested.get()));
+                }
+                keep.things.push(Box::new((o_side, w2)));
                 keep.things.push(Box::new(o));
                 keep.things.push(Box::new(v));
                 // the inner panic was caught by the closure: the outer stabilise must still be sane
